@@ -154,6 +154,173 @@ pub fn template(rng: &mut Rng, junk: bool) -> String {
     s
 }
 
+#[derive(Clone, PartialEq)]
+enum Tok {
+    Lit(String),
+    Par { wild: bool, name: String, cons: Option<String> },
+    Open,
+    Close,
+}
+
+fn tokenize(t: &str) -> Option<Vec<Tok>> {
+    let cs: Vec<char> = t.chars().collect();
+    let mut out = vec![];
+    let mut i = 0;
+    while i < cs.len() {
+        match cs[i] {
+            '\\' => {
+                if i + 1 < cs.len() {
+                    out.push(Tok::Lit(format!("\\{}", cs[i + 1])));
+                    i += 2;
+                } else {
+                    out.push(Tok::Lit("\\".to_owned()));
+                    i += 1;
+                }
+            }
+            '(' => { out.push(Tok::Open); i += 1; }
+            ')' => { out.push(Tok::Close); i += 1; }
+            '{' => {
+                let j = (i + 1..cs.len()).find(|j| cs[*j] == '}')?;
+                let inner: String = cs[i + 1..j].iter().collect();
+                if inner.contains('{') || inner.contains('(') || inner.contains(')') {
+                    return None;
+                }
+                let (wild, rest) = match inner.strip_prefix('*') { Some(r) => (true, r.to_owned()), None => (false, inner.clone()) };
+                let (name, cons) = match rest.split_once(':') { Some((n, c)) => (n.to_owned(), Some(c.to_owned())), None => (rest, None) };
+                out.push(Tok::Par { wild, name, cons });
+                i = j + 1;
+            }
+            '}' => return None,
+            c => { out.push(Tok::Lit(c.to_string())); i += 1; }
+        }
+    }
+    Some(out)
+}
+
+fn render(ts: &[Tok]) -> String {
+    let mut s = String::new();
+    for t in ts {
+        match t {
+            Tok::Lit(l) => s.push_str(l),
+            Tok::Open => s.push('('),
+            Tok::Close => s.push(')'),
+            Tok::Par { wild, name, cons } => {
+                s.push('{');
+                if *wild { s.push('*'); }
+                s.push_str(name);
+                if let Some(c) = cons { s.push(':'); s.push_str(c); }
+                s.push('}');
+            }
+        }
+    }
+    s
+}
+
+/// the closing parenthesis that matches the opening one at `i`
+fn matching(ts: &[Tok], i: usize) -> Option<usize> {
+    let mut d = 0i32;
+    for (k, t) in ts.iter().enumerate().skip(i) {
+        match t { Tok::Open => d += 1, Tok::Close => { d -= 1; if d == 0 { return Some(k); } } _ => {} }
+    }
+    None
+}
+
+/// One-atom mutation of a template: a *relative* that differs from it in exactly one feature — a parameter renamed, its
+/// constraint added/changed/dropped, its kind toggled; a literal character replaced by a confusable one (same lead byte
+/// for multi-byte characters), inserted or deleted; a group duplicated `(g)(g)`, wrapped twice `((g))`, or put around a
+/// stretch; an ordinary character re-spelled with a redundant backslash. Relatives are what shares tree nodes, collides,
+/// shadows and ties in rank; independent random templates rarely do.
+pub fn mutate(rng: &mut Rng, t: &str) -> String {
+    let Some(mut ts) = tokenize(t) else { return format!("{t}{}", rng.lit(LITS)) };
+    if ts.is_empty() {
+        return "/".to_owned();
+    }
+    let pars: Vec<usize> = (0..ts.len()).filter(|i| matches!(ts[*i], Tok::Par { .. })).collect();
+    let lits: Vec<usize> = (1..ts.len()).filter(|i| matches!(ts[*i], Tok::Lit(_))).collect();
+    let opens: Vec<usize> = (0..ts.len()).filter(|i| ts[*i] == Tok::Open).collect();
+    for _attempt in 0..6 {
+        match rng.below(12) {
+            0 | 1 if !pars.is_empty() => {
+                let i = *rng.pick(&pars);
+                if let Tok::Par { name, .. } = &mut ts[i] { *name = rng.lit(NAMES).to_string(); }
+            }
+            2 | 3 if !pars.is_empty() => {
+                let i = *rng.pick(&pars);
+                if let Tok::Par { cons, .. } = &mut ts[i] {
+                    *cons = if cons.is_some() && rng.chance(1, 2) { None } else { Some(rng.lit(CONS).to_string()) };
+                }
+            }
+            4 if !pars.is_empty() => {
+                let i = *rng.pick(&pars);
+                if let Tok::Par { wild, .. } = &mut ts[i] { *wild = !*wild; }
+            }
+            5 if !lits.is_empty() => {
+                let i = *rng.pick(&lits);
+                if let Tok::Lit(l) = &mut ts[i] {
+                    let to = match l.as_str() {
+                        "a" => "b", "b" => "a", "é" => "è", "è" => "é", "日" => "早", "早" => "文", "文" => "日", "." => "-", "-" => ".",
+                        "x" => "y", "m" => "n", "/" => "/", _ => "a",
+                    };
+                    *l = to.to_owned();
+                }
+            }
+            6 => {
+                let i = 1 + rng.below(ts.len());
+                ts.insert(i.min(ts.len()), Tok::Lit(rng.lit(&["a", "b", "/", ".", "é", "è", "日", "早", "x", "-", "/a", " "]).to_string()));
+            }
+            7 if !lits.is_empty() => {
+                let i = *rng.pick(&lits);
+                ts.remove(i);
+            }
+            8 if !opens.is_empty() => {
+                // (g) -> (g)(g)
+                let i = *rng.pick(&opens);
+                if let Some(j) = matching(&ts, i) {
+                    let g: Vec<Tok> = ts[i..=j].to_vec();
+                    for (k, t) in g.into_iter().enumerate() { ts.insert(j + 1 + k, t); }
+                }
+            }
+            9 if !opens.is_empty() => {
+                // (g) -> ((g))
+                let i = *rng.pick(&opens);
+                if let Some(j) = matching(&ts, i) {
+                    ts.insert(j, Tok::Close);
+                    ts.insert(i, Tok::Open);
+                }
+            }
+            10 => {
+                // a group around a balanced stretch
+                let a = 1 + rng.below(ts.len());
+                let b = a + rng.below(ts.len() + 1 - a.min(ts.len()));
+                let (a, b) = (a.min(ts.len()), b.min(ts.len()));
+                let mut d = 0i32;
+                let mut ok = a < b;
+                for t in &ts[a..b] {
+                    match t { Tok::Open => d += 1, Tok::Close => { d -= 1; if d < 0 { ok = false; } } _ => {} }
+                }
+                if ok && d == 0 {
+                    ts.insert(b, Tok::Close);
+                    ts.insert(a, Tok::Open);
+                } else {
+                    continue;
+                }
+            }
+            11 if !lits.is_empty() => {
+                let i = *rng.pick(&lits);
+                if let Tok::Lit(l) = &mut ts[i] {
+                    if l.len() == 1 && l.chars().all(|c| c.is_ascii_alphanumeric()) { *l = format!("\\{l}"); } else { continue; }
+                }
+            }
+            _ => continue,
+        }
+        let m = render(&ts);
+        if m != t {
+            return m;
+        }
+    }
+    format!("{t}{}", rng.lit(&["/a", ".b", "/{id}", "(/)", "/{*w}"]))
+}
+
 const VALS: &[&str] = &["a", "b", "ab", "é", "1", "255", "256", "true", "x", "aa", "a/b", "m", "a/m/b", "/", ".", "a.b", "ée", "日", "-", "aé"];
 const BITS: &[&str] = &["/", "a", "ab", "b", ".", "-", "é", "x", "1", "m", "//", "/x", "日"];
 
@@ -226,6 +393,11 @@ impl Hist {
 
 /// random multi-router histories over a collision-rich template pool
 pub fn hist(rng: &mut Rng, histories: usize, family: bool, out: &mut Out) {
+    hist_with(rng, histories, family, false, out)
+}
+
+/// `kin`: the template pool of a history is two base templates and chains of one-atom mutations of them (see `mutate`)
+pub fn hist_with(rng: &mut Rng, histories: usize, family: bool, kin: bool, out: &mut Out) {
     for _ in 0..histories {
         out.reset();
         let mut keys: Vec<&str> = KEYS.to_vec();
@@ -233,7 +405,22 @@ pub fn hist(rng: &mut Rng, histories: usize, family: bool, out: &mut Out) {
             keys.push(rng.lit(&["even_dup", "u8_dup", "alpha"]));
         }
         out.new_router(0, &keys);
-        let pool: Vec<String> = (0..(8 + rng.below(7))).map(|_| { let junk = rng.chance(1, 10); template(rng, junk) }).collect();
+        let pool: Vec<String> = if kin {
+            let mut pool: Vec<String> = vec![];
+            for _ in 0..2 {
+                pool.push(if rng.chance(1, 2) { template(rng, false) } else { rng.lit(SHAPES).to_string() });
+            }
+            for _ in 0..(8 + rng.below(6)) {
+                let base = rng.pick(&pool).clone();
+                let m = mutate(rng, &base);
+                if !pool.contains(&m) {
+                    pool.push(m);
+                }
+            }
+            pool
+        } else {
+            (0..(8 + rng.below(7))).map(|_| { let junk = rng.chance(1, 10); template(rng, junk) }).collect()
+        };
         let mut hs: Vec<Option<Hist>> = vec![Some(Hist { router: shadow(), live: vec![], routes: vec![] }), None, None, None];
         let mut paths: Vec<String> = (0..4).map(|_| path(rng, &[])).collect();
         let mut next = 1u32;
